@@ -683,6 +683,11 @@ class Interp:
                     return Opaque('str')
                 self.type_error()
             if isinstance(a, (Opaque,)) or isinstance(b, (Opaque,)):
+                h = self.hooks.get('binop')
+                if h:
+                    r = h(self, op, a, b)
+                    if r is not NotImplemented:
+                        return r
                 raise Unsupported('binop on opaque value')
             self.type_error()
         if op is ast.Add:
@@ -742,6 +747,11 @@ class Interp:
         for x in (a, b):
             if isinstance(x, (SObj, Opaque, ClassVal, FuncVal, SymDictBase)):
                 if isinstance(x, Opaque):
+                    h = self.hooks.get('binop')
+                    if h:
+                        r = h(self, op, a, b)
+                        if r is not NotImplemented:
+                            return r
                     raise Unsupported('binop on opaque value')
                 self.type_error()
         if isinstance(a, set) and isinstance(b, set):
@@ -789,6 +799,11 @@ class Interp:
         o = _CMP[type(op)]
         if not is_sym(a) and not is_sym(b):
             if isinstance(a, (SObj, Opaque, SymDictBase)) or isinstance(b, (SObj, Opaque, SymDictBase)):
+                h = self.hooks.get('opaque_eq')
+                if h and o in ('==', '!=') and a is not b:
+                    r = h(self, a, b)
+                    if r is not None:
+                        return r if o == '==' else self.not_(r)
                 if o == '==':
                     if isinstance(a, Opaque) or isinstance(b, Opaque):
                         if a is b:
@@ -1365,6 +1380,9 @@ class Interp:
         return dict(self._comp(n.generators, env, lambda e: [(self.eval(n.key, e), self.eval(n.value, e))]))
 
     def iterate(self, v):
+        if isinstance(v, (set, frozenset)) and len(v) > 1:
+            # iteration order of a set depends on the hash seed (C16): recorded for the frame obligations
+            self.run.notes['set_iterated'] = self.run.notes.get('set_iterated', 0) + 1
         if isinstance(v, (list, tuple, set, frozenset, str, bytes, range, bytearray)):
             return list(v)
         if isinstance(v, dict):
@@ -1437,6 +1455,7 @@ class Interp:
                 return SObj(cls, {'args': tuple(args)})
             raise Unsupported('instantiate builtin class %s' % cls.name)
         obj = SObj(cls, {})
+        self.run.notes.setdefault('created', set()).add(id(obj))
         c, init = cls.find('__init__')
         if init is None or not isinstance(init, FuncVal):
             self._base_init(obj, args)
